@@ -1,14 +1,15 @@
 #!/usr/bin/env python3
-"""Evaluate a seeded change delivered under /tmp/seed2/out/<pid>: confirm the demonstration
+"""Evaluate a seeded change delivered under $SEEDROOT/out/<pid> (default /tmp/seed2): confirm the demonstration
 (fails with the change, passes without) in the agent's scratch worktree, then apply the patch to
 /repo, run the property's check (no evidence written), and restore /repo. Usage: seed_eval.py Cxx [more props]"""
 import json, os, subprocess, sys
 def sh(cmd, cwd=None, timeout=1500):
     return subprocess.run(cmd, shell=True, capture_output=True, text=True, cwd=cwd, timeout=timeout)
+ROOT = os.environ.get('SEEDROOT', '/tmp/seed2')
 pid = sys.argv[1]
 props = sys.argv[2:] or [pid]
-out = f'/tmp/seed2/out/{pid}'
-wt = f'/tmp/seed2/{pid}'
+out = f'{ROOT}/out/{pid}'
+wt = f'{ROOT}/{pid}'
 meta = json.load(open(out + '/meta.json'))
 print('summary:', meta['summary'][:400])
 env = 'GOFLAGS=-mod=mod GOPROXY=off '
@@ -16,7 +17,7 @@ d = meta.get('demo_pkg_dir', '.') or '.'
 # confirm demo
 r = sh(f'git -C {wt} status --short')
 print('worktree status:', r.stdout.strip().replace('\n', ' | '))
-run = f"{env} go test -vet=off -count=1 -timeout 300s -run 'Seed2|seed2' ./{d}/"
+run = f"{env} go test -vet=off -count=1 -timeout 300s -run 'Seed[23]|seed[23]' ./{d}/"
 r1 = sh(run, cwd=wt)
 print('demo with change   :', 'FAIL' if r1.returncode != 0 else 'pass')
 sh(f'git -C {wt} apply -R {out}/patch.diff')
